@@ -163,6 +163,110 @@ def filter_excludes_absent(F, it):
     return False
 
 
+def narrowing_tag_facts(conj):
+    """facts of a predicate summary about a slot's tag other than `tag != 0`: a filter that also rejects tag 1 (`branch > 1`,
+    a range that stops short of the last group) is true only for present vertices, but not for all of them"""
+    out = []
+    for f in conj:
+        if f[0] in ("in", "notin") and is_tag_of(f[1]):
+            if not (f[0] == "notin" and f[2] == frozenset([0])):
+                out.append(f)
+        elif f[0] == "cmp" and (is_tag_of(f[2]) or is_tag_of(f[3])):
+            out.append(f)
+        elif f[0] == "bool" and mentions(f[1], lambda x: x[0] == "field" and x[2] == "Vertex::branch"):
+            out.append(f)
+    return out
+
+
+def filter_too_narrow(F, it):
+    for name, extra in it.adaptors:
+        if name in ("filter", "filter_map"):
+            cb = closure_of(F, extra[0]) if extra else None
+            if cb is None:
+                continue
+            summ = pred_summary(cb) if name == "filter" else some_summary(cb)
+            for conj in summ or []:
+                nf = narrowing_tag_facts(conj)
+                if nf:
+                    return [show(f, cb) for f in nf]
+    return []
+
+
+def present_summaries(F, R):
+    """len() and is_empty() describe the same set as keys(): they are computed from keys()/len(), or by a walk over the vertex
+    store that selects exactly the slots whose tag is not 0"""
+    keys = F.fn("Sodg", "keys")
+    for name in ("len", "is_empty"):
+        b = F.fn("Sodg", name)
+        label = "Sodg::" + name
+        if b is None:
+            continue            # not part of the API any more: nothing to agree with
+        its, raw = iterations(F, b, is_vertices_of_self)
+        R.analysed(b, len(raw))
+        preds = []
+        for e in raw:
+            if e.kind == "call" and e.name in ("any", "all", "find", "position", "find_map") and len(e.args) > 1:
+                itx = strip_load(e.args[0])
+                src = iter_source(itx) if itx[0] in ("iter", "adapt") else None
+                if src is not None and is_vertices_of_self(src):
+                    preds.append((e, itx))
+        for e, itx in preds:
+            cb = closure_of(F, e.args[1])
+            summ = pred_summary(cb) if cb is not None else None
+            keeps = all(a in ITEM_KEEPING for a, _ in iter_adaptors(itx))
+            why = None
+            if e.name == "all":
+                ok = keeps and bool(summ) and all(any(f[0] == "in" and f[2] == frozenset([0]) and is_tag_of(f[1]) for f in conj) and
+                                                  len([f for f in conj if mentions(f, lambda x: x[0] == "field" and x[2] == "Vertex::branch")]) == 1
+                                                  for conj in summ)
+            else:
+                ok = keeps and bool(summ) and all(excludes(conj, lambda s2: is_tag_of(s2), 0) is not None and not narrowing_tag_facts(conj)
+                                                  for conj in summ)
+                if summ and not ok:
+                    why = [show(f, cb) for conj in summ for f in narrowing_tag_facts(conj)]
+            if ok:
+                R.ok("XP1", e.where(), "%s() searches the vertex store for a slot whose tag is not 0 (%s)" % (name, e.name))
+            else:
+                R.bad("XP1", "XP1/%s/present-test-not-tag-nonzero" % label, e.where(),
+                      "%s() searches the vertex store with a test that is not exactly `tag != 0`: it disagrees with keys() about which "
+                      "vertices are present (e.g. a vertex that was added but never bound)" % name,
+                      {"search": show(itx, e.body)[:200], "narrowing": why})
+        if preds and not its:
+            continue
+        if not its:
+            derived = any(t["callee"].get("local") and t["callee"].get("name") in ("keys", "len") for _, t in b.calls())
+            direct = any(e.kind == "call" and e.krate == "emap" and e.args and is_vertices_of_self(e.args[0]) for e in raw)
+            if derived and not direct:
+                R.ok("XP1", b.where(), "%s() is computed from keys()/len(): the present vertices" % name)
+            else:
+                R.bad("XP1", "XP1/%s/not-derived-from-the-present-set" % label, b.where(),
+                      "%s() is computed neither from keys()/len() nor by a walk that selects the slots with tag != 0: it counts "
+                      "slots, not present vertices" % name)
+            continue
+        for it in its:
+            ok = filter_excludes_absent(F, it) and not filter_too_narrow(F, it)
+            why = None
+            cons = getattr(it, "consumer", "")
+            if not ok and cons in ("any", "all", "find", "position", "find_map") and len(it.result[2]) > 1 and \
+                    all(a in ITEM_KEEPING for a, _ in it.adaptors):
+                cb = closure_of(F, it.result[2][1])
+                summ = pred_summary(cb) if cb is not None else None
+                if cons == "all":
+                    # all(absent): the predicate must be true exactly for tag == 0
+                    ok = bool(summ) and all(any(f[0] == "in" and f[2] == frozenset([0]) and is_tag_of(f[1]) for f in conj) for conj in summ)
+                else:
+                    ok = bool(summ) and all(excludes(conj, lambda s2: is_tag_of(s2), 0) is not None and not narrowing_tag_facts(conj) for conj in summ)
+                    if summ and not ok:
+                        why = [show(f, cb) for conj in summ for f in narrowing_tag_facts(conj)]
+            if ok:
+                R.ok("XP1", it.where(), "%s() walks the vertex store selecting exactly the slots whose tag is not 0" % name)
+            else:
+                R.bad("XP1", "XP1/%s/present-test-not-tag-nonzero" % label, it.where(),
+                      "%s() walks the vertex store with a test that is not exactly `tag != 0`: it disagrees with keys() about which "
+                      "vertices are present (e.g. a vertex that was added but never bound)" % name,
+                      {"iterator": show(it.it, it.body)[:240], "narrowing": why})
+
+
 def vertex_item_tag_pred(it):
     p = it.item_pred()
 
@@ -256,6 +360,11 @@ def xp1(F, R, only=None):
                           "a present vertex gets its entry only if its read status is in %s: vertices without data (or with data already read) are "
                           "missing from the listing" % sorted(cover))
                     continue
+            if ok and how == "filter adaptor" and filter_too_narrow(F, it):
+                R.bad("XP1", "XP1/%s/present-filter-too-narrow" % label, it.where(),
+                      "%s selects slots by a test narrower than `tag != 0` (%s): present vertices outside that range — e.g. added but "
+                      "never bound — are not listed" % (label, filter_too_narrow(F, it)))
+                continue
             if ok:
                 R.ok("XP1", it.where(), "%s lists a slot only if its tag is not 0 (%s)" % (label, how))
             else:
@@ -265,6 +374,8 @@ def xp1(F, R, only=None):
                       {"iterator": show(it.it, it.body)})
     if only is None:
         R.floor("XP1", "whole-graph listings", n, 4)
+    if only is None or "Sodg::len" in only:
+        present_summaries(F, R)
 
 
 def is_test_call(e):
@@ -408,7 +519,64 @@ def source_method(it):
     return it[2] if it[0] == "iter" else "?"
 
 
+def keyed_collect_problem(F, it):
+    """the edges walked were first collected into a map or a set (BTreeMap, HashMap, BTreeSet, HashSet): entries with equal keys
+    collapse into one.  Harmless iff the key is (or contains) the edge's label, which is unique within a vertex's edge map; a map keyed
+    by the *target* loses every second label bound to the same vertex.  Returns a description of the problem or None."""
+    from sl import expr_type
+    KEYED = ("BTreeMap<", "HashMap<", "BTreeSet<", "HashSet<", "IndexMap<", "IndexSet<")
+    LABEL = ("field", ("param", 2), "(tuple)::0")
+
+    def is_label(x):
+        x = strip_load(x)
+        for _ in range(4):
+            if x[0] in ("deref", "copied", "cloned", "cast") and len(x) > 1 and isinstance(x[-1], tuple):
+                x = strip_load(x[-1])
+        return strip_sites(x) == LABEL
+
+    x = strip_load(it.it)
+    depth = 0
+    while depth < 12:
+        depth += 1
+        if x[0] == "adapt":
+            x = strip_load(x[2])
+            continue
+        if x[0] == "iter":
+            src = strip_load(x[1])
+            if src[0] == "call" and src[1].split("::")[-1] in ("collect", "from_iter", "collect_vec") and src[2]:
+                ty = expr_type(it.body, src)
+                inner = strip_load(src[2][-1])
+                if any(k in ty for k in KEYED):
+                    maps = []
+                    y = inner
+                    while y[0] == "adapt":
+                        if y[1] in ("map", "filter_map", "flat_map", "zip", "enumerate"):
+                            maps.append(y)
+                        y = strip_load(y[2])
+                    if not maps:
+                        x = inner
+                        continue            # the entries themselves: keyed by the label
+                    if len(maps) > 1 or maps[0][1] != "map":
+                        return "collected into %s through %s: cannot establish that the key is the edge's label" % (ty[:40], [m[1] for m in maps])
+                    cl = strip_load(maps[0][3][0]) if maps[0][3] else None
+                    cb = F.bodies.get(cl[1]) if cl is not None and cl[0] == "closure" else None
+                    if cb is None or len(cb.returns) != 1:
+                        return "collected into %s by a key that cannot be read" % ty[:40]
+                    r = cb.returns[0]
+                    ret = strip_load(cb.expr_local(0, (r, cb.term_idx(r))))
+                    elems = [e2 for e2 in ret[1]] if ret[0] == "tuple" else [ret]
+                    is_set = "Set<" in ty
+                    ok = any(is_label(e2) for e2 in elems) if is_set else (len(elems) >= 1 and is_label(elems[0]))
+                    if not ok:
+                        return "collected into a %s whose key is not the edge's label (%s)" % (ty.split("<")[0].split("::")[-1], show(elems[0], cb)[:80])
+                x = inner
+                continue
+        break
+    return None
+
+
 # ---------------------------------------------------------------- XP3: one entry per edge
+RESHAPING = ("zip", "zip_eq", "zip_longest", "chain", "interleave", "merge", "flat_map", "flatten", "cycle", "scan", "cartesian_product", "tuple_windows", "chunks")
 def edge_emission(F, R, rule, fnlabel, b, need_both=True):
     vits, raw = iterations(F, b, is_vertices_of_self)
     eits, _ = iterations(F, b, is_edges_field)
@@ -430,6 +598,23 @@ def edge_emission(F, R, rule, fnlabel, b, need_both=True):
             R.bad(rule, "%s/%s/edges-filtered" % (rule, fnlabel), it.where(),
                   "not every edge of a vertex is listed: the edge iteration passes through %s" % dropped,
                   {"iterator": show(it.it, it.body)})
+            continue
+        # the items walked are the entries of the edge map themselves: an adaptor that pairs or merges the walk with another
+        # iterator (`keys().sorted().zip(values())`) makes tuples that look like entries but are not — the label of one edge
+        # with the target of another
+        kc = keyed_collect_problem(F, it)
+        if kc:
+            R.bad(rule, "%s/%s/edges-collapsed-by-key" % (rule, fnlabel), it.where(),
+                  "the edges listed were first %s: two labels bound to the same target collapse into one entry" % kc,
+                  {"iterator": show(it.it, it.body)[:300]})
+            continue
+        reshaped = [an for an, _ in it.adaptors if an in RESHAPING]
+        sm = source_method(it.it)
+        if reshaped or (need_both and sm in ("keys", "values", "into_keys", "into_values")):
+            R.bad(rule, "%s/%s/edge-walk-not-over-the-entries" % (rule, fnlabel), it.where(),
+                  "the walk that lists a vertex's edges is not a walk over the entries (label, target) of its edge map (%s): an entry "
+                  "can pair the label of one edge with the target of another" % (reshaped or ["source: " + sm + "()"]),
+                  {"iterator": show(it.it, it.body)[:300]})
             continue
         # the edges walked are those of the vertex being emitted (outer item), not of some other vertex
         src = strip_load(it.source)
@@ -754,6 +939,12 @@ def in2(F, R):
             if dropped:
                 R.bad("IN2", "IN2/Sodg::inspect/edges-filtered", it.where(),
                       "inspect() does not list every edge of a visited vertex (%s)" % dropped)
+                continue
+            kc = keyed_collect_problem(F, it)
+            if kc:
+                R.bad("IN2", "IN2/Sodg::inspect/edges-collapsed-by-key", it.where(),
+                      "the edges of a visited vertex were first %s: two labels bound to the same target collapse into one line" % kc,
+                      {"iterator": show(it.it, it.body)[:300]})
                 continue
             # edges of the vertex named by the function's parameter
             src = strip_load(it.source)
